@@ -19,7 +19,14 @@ summary=$(echo "$out" | grep -m1 "^$P $TIER:" )
 python3 - "$S/detection.json" "$P" "$TIER" "$code" "$nviol" "$case_id" "$obs" "$summary" "$((end-start))" "$(git -C /repo rev-parse --short HEAD)" <<'PY'
 import json,sys
 out,p,tier,code,nviol,case,obs,summary,secs,head=sys.argv[1:11]
-json.dump({"check":p,"tier":tier,"exit_code":int(code),"violation_lines":int(nviol),"detected":int(code)==1 and int(nviol)>0,
+import os
+hist=[]
+if os.path.exists(out):
+    try:
+        o=json.load(open(out)); hist=o.get("history",[])+[{k:o.get(k) for k in ("detected","exit_code","violation_lines","repo_head","verif_head","first_violation_case")}]
+    except Exception: pass
+vh=os.popen("git -C /verif rev-parse --short HEAD").read().strip()
+json.dump({"history":hist,"verif_head":vh,"check":p,"tier":tier,"exit_code":int(code),"violation_lines":int(nviol),"detected":int(code)==1 and int(nviol)>0,
            "first_violation_case":case,"first_violation_observation":obs,"check_summary":summary,"wall_s":int(secs),"repo_head":head},open(out,"w"),indent=1)
 PY
 git -C /repo worktree remove --force "$WT"
